@@ -21,6 +21,11 @@ GLOBAL_ASSUMPTIONS = [
 def _match_known(ob, kf):
     for f in kf.get("findings", []):
         if f["obligation"] == ob.name:
+            # a finding is identified by what fails, not only by where: a DIFFERENT failure of the same obligation
+            # (other detail) is still reported as a violation
+            sig = f.get("detail_contains")
+            if sig and sig not in ((ob.clause or "") + "\n" + (ob.detail or "")):
+                continue
             return f
     return None
 
@@ -49,6 +54,8 @@ def conclude(pid, tier, seed, obls, infos, undecided_reasons, wall, write_eviden
     WITNESS_MODES = {"c10_jubjub_fr": "c10_jubjub_fr", "c11_jubjub": "c11_jubjub", "c11_bls": "c11_bls",
                      "c10_curve25519_fp": "c10_c25519_fp", "c16_zkir_routing": "c16_zkir", "c12_chunks_v": "c12_chunks", "c06_foreign_preconditions": "c06_foreign", "c16_vk_read": "c16_vk", "c12_msm_parallel_v": "c12_msm"}
     for ob in obls:
+        if _match_known(ob, kf):
+            continue      # a recorded finding: no new search for a failing input (the record names one)
         if ob.backend in ("verus", "polyvc") and getattr(ob, "unit_name", None) in WITNESS_MODES and not getattr(ob, "replay", None):
             resource = ob.status == UNDECIDED and re.search(r"rlimit|Resource limit|timed out|unregistered call site", ob.detail or "")
             if ob.status == FAILED or resource:
